@@ -260,3 +260,13 @@ Proof. vm_compute. repeat split. Qed.
 Theorem T04d_constant_weight : forall rows c f, loglike rows (fun _ => c) f = c * rsum (map f rows).
 Proof. exact constant_weight. Qed.
 Print Assumptions T04d_constant_weight.
+
+(* T04h. The parameter point at which the object evaluates "its current" likelihood
+   (calculate_init_likelihood) follows change_init_values: every value given replaces the old one,
+   exact zero included (about the definition generated from biogeme.py). *)
+Theorem T04h_changed_value : forall old v, changed_value old (Some v) = v /\ changed_value old None = old.
+Proof. exact changed_value_spec. Qed.
+Print Assumptions T04h_changed_value.
+
+Example T04h_example : changed_value 3 (Some 0) = 0 /\ changed_value 3 None = 3.
+Proof. split; reflexivity. Qed.
